@@ -567,14 +567,24 @@ class FileCache:
             if filepath not in missed_filepaths:
                 self._get_from_cache(self._cache_file_name(uri))
 
+        download_error = None
         if cache_misses:
-            was_succesfully_downloaded = _download_from_resources(
-                cache_misses,
-                self.resources,
-                parallel_download=self.config.parallel,
-                disable_progress_bar=self.disable_progress_bar,
-                desc=self.description,
-            )
+            try:
+                was_succesfully_downloaded = _download_from_resources(
+                    cache_misses,
+                    self.resources,
+                    parallel_download=self.config.parallel,
+                    disable_progress_bar=self.disable_progress_bar,
+                    desc=self.description,
+                )
+            except Exception as error:
+                # Files that did complete before the error are on disk; do the
+                # bookkeeping for those (register, evict) before re-raising so
+                # that the index and the directory stay in agreement.
+                download_error = error
+                was_succesfully_downloaded = [
+                    os.path.exists(cache_miss.filepath) for cache_miss in cache_misses
+                ]
 
             for cache_miss, success in zip(cache_misses, was_succesfully_downloaded):
                 if success:
@@ -603,6 +613,9 @@ class FileCache:
         # to big.
         if not len(cache_misses) == 0:
             self._cache_eviction()
+
+        if download_error is not None:
+            raise download_error
 
         return filepaths
 
@@ -735,13 +748,20 @@ def _download_from_resources(
     # Download the requested objects.
     if parallel_download and len(cache_misses) > 1:
         with ThreadPool(processes=MAXIMUM_NUMBER_OF_WORKERS) as pool:
-            output = list(
-                tqdm(
-                    pool.imap(_worker, cache_misses, chunksize=5),
-                    desc=desc,
-                    total=len(cache_misses),
+            try:
+                output = list(
+                    tqdm(
+                        pool.imap(_worker, cache_misses, chunksize=5),
+                        desc=desc,
+                        total=len(cache_misses),
+                    )
                 )
-            )
+            except Exception:
+                # let downloads that are under way finish before reporting the
+                # error, so no file appears in the cache after we return.
+                pool.close()
+                pool.join()
+                raise
     else:
         if len(cache_misses) == 1:
             disable_progress_bar = True
